@@ -99,8 +99,10 @@ def channel_capacity(cdists, marginal=None, rtol=None, atol=None):
         old_cc, (cc, pmf) = cc, next(cc_iter)
 
     if marginal is not None:
-        marginal_opt = marginal.copy()
+        marginal_opt = marginal.copy(base='linear')
         marginal_opt.pmf = pmf
+        if marginal.is_log():
+            marginal_opt.set_base(marginal.get_base())
     else:
         marginal_opt = pmf
 
